@@ -26,6 +26,7 @@ import (
 	"strings"
 	"sync"
 	"sync/atomic"
+	"time"
 	"testing"
 
 	"github.com/valyala/fasthttp/internal/verif/vnet"
@@ -45,11 +46,12 @@ const (
 	c11KStreamUnread
 	c11KClose
 	c11KHead
+	c11KGranted // body over Server.MaxRequestBodySize but within the per-request override HeaderReceived grants to /granted/ paths
 	c11NKinds
 )
 
 var c11KindName = [...]string{"GET", "POST-urlencoded", "POST-multipart", "POST-chunked", "expect-accepted", "expect-rejected",
-	"parse-error", "oversized-body", "hijack", "body-left-unread", "handler-sets-connection-close", "HEAD"}
+	"parse-error", "oversized-body", "hijack", "body-left-unread", "handler-sets-connection-close", "HEAD", "oversized-but-granted-by-HeaderReceived"}
 
 const c11MaxBody = 16 << 10
 
@@ -106,6 +108,13 @@ func c11Raw(kind, v int) []byte {
 			cl(strings.Repeat("x", 12000+v)))
 	case c11KClose:
 		return []byte("GET /close/" + pick("a?c=1", "b") + " HTTP/1.1\r\nHost: c11.example\r\nX-Do: close\r\n\r\n")
+	case c11KGranted:
+		n := c11MaxBody + 1000
+		if v == 0 {
+			n = c11MaxBody + 4000
+		}
+		return []byte("POST /granted/" + pick("a", "b") + " HTTP/1.1\r\nHost: c11.example\r\nContent-Type: application/x-www-form-urlencoded\r\n" + pick("X-Granted: 1\r\n", "") +
+			cl("big="+strings.Repeat("G", n-4)))
 	case c11KHead:
 		return []byte("HEAD /head/" + pick("a?hd=1", "b") + " HTTP/1.1\r\nHost: c11.example\r\n" + pick("X-Head: h0\r\n", "") + "\r\n")
 	}
@@ -128,7 +137,12 @@ type c11Cfg struct {
 	ReduceMem bool `json:"reduce_memory_usage"`
 	Stream    bool `json:"stream_request_body"`
 	ExpectAPI int  `json:"expect_api"` // 0 = ContinueHandler, 1 = ExpectHandler
+	// HdrRecv installs Server.HeaderReceived: requests to /granted/ get RequestConfig{MaxRequestBodySize: 64 KiB,
+	// ReadTimeout, WriteTimeout}, every other request the zero RequestConfig (= server defaults).
+	HdrRecv bool `json:"header_received"`
 }
+
+const c11GrantedMaxBody = 64 << 10
 
 type c11Item struct {
 	Kind    int  `json:"kind"`
@@ -143,7 +157,7 @@ type c11History struct {
 
 func (h c11History) String() string {
 	var sb strings.Builder
-	fmt.Fprintf(&sb, "ReduceMemoryUsage=%v StreamRequestBody=%v expect=%s:", h.Cfg.ReduceMem, h.Cfg.Stream, [...]string{"ContinueHandler", "ExpectHandler"}[h.Cfg.ExpectAPI])
+	fmt.Fprintf(&sb, "ReduceMemoryUsage=%v StreamRequestBody=%v expect=%s HeaderReceived=%v:", h.Cfg.ReduceMem, h.Cfg.Stream, [...]string{"ContinueHandler", "ExpectHandler"}[h.Cfg.ExpectAPI], h.Cfg.HdrRecv)
 	for _, it := range h.Items {
 		if it.NewConn {
 			sb.WriteString(" || new connection:")
@@ -419,6 +433,14 @@ func c11RunOnce(h c11History) *c11Obs {
 		Logger:             c11NopLogger{},
 		NoDefaultDate:      true,
 	}
+	if h.Cfg.HdrRecv {
+		s.HeaderReceived = func(hd *RequestHeader) RequestConfig {
+			if bytes.HasPrefix(hd.RequestURI(), []byte("/granted/")) {
+				return RequestConfig{MaxRequestBodySize: c11GrantedMaxBody, ReadTimeout: time.Minute, WriteTimeout: time.Minute}
+			}
+			return RequestConfig{}
+		}
+	}
 	if h.Cfg.ExpectAPI == 0 {
 		s.ContinueHandler = func(hd *RequestHeader) bool { return !reject(hd) }
 	} else {
@@ -547,7 +569,9 @@ func c11Configs() []c11Cfg {
 	for _, rm := range []bool{false, true} {
 		for _, st := range []bool{false, true} {
 			for api := 0; api < 2; api++ {
-				out = append(out, c11Cfg{rm, st, api})
+				for _, hr := range []bool{false, true} {
+					out = append(out, c11Cfg{rm, st, api, hr})
+				}
 			}
 		}
 	}
@@ -767,6 +791,16 @@ func c11Judge(r *vrt.R, h c11History, o *c11Obs, bl c11Baselines) {
 					// neither dispatched nor answered: the connection ended before it (legitimate after close/error/hijack)
 				}
 			}
+			if b.Snap == nil && resp != nil && resp.ByH {
+				ctxName := after(j)
+				for _, e := range idxs[:j] {
+					if h.Items[e].Kind == c11KGranted {
+						ctxName = "after-" + c11KindName[c11KGranted] // a per-request grant earlier on this connection
+					}
+				}
+				viol("dispatched-although-refused-when-alone:"+ctxName, fmt.Sprintf("%s reached the handler (response %d written by the handler); the same bytes alone on a fresh server with the same configuration are refused", name, resp.Status))
+				return
+			}
 			if resp != nil && b.Resp != nil {
 				if c11JSON(resp) != c11JSON(b.Resp) {
 					viol("response-differs-from-fresh:"+c11RespDiff(resp, b.Resp), fmt.Sprintf("%s: response %s, the same request alone on a fresh server is answered %s", name, c11JSON(resp), c11JSON(b.Resp)))
@@ -824,7 +858,11 @@ func c11Enumerate(maxLen int) []c11History {
 			if len(items) == maxLen {
 				return
 			}
-			for k := 0; k < c11NKinds; k++ {
+			kinds := c11NKinds
+			if !cfg.HdrRecv {
+				kinds = c11KGranted // without HeaderReceived the granted kind is just another oversized body
+			}
+			for k := 0; k < kinds; k++ {
 				rec(append(items, c11Item{k, len(items) % 2, false}), conns)
 				if len(items) > 0 && conns < 2 {
 					rec(append(items, c11Item{k, len(items) % 2, true}), conns+1)
@@ -859,10 +897,10 @@ func TestVerif_C11(t *testing.T) {
 		t.Logf("replayed %s (tries=%d, ctx reused=%v)", h, tries, o.CtxReused)
 		return
 	}
-	r.Rule("all histories of 1..3 (thorough: 1..4) requests over 12 request kinds {GET with query+cookies+headers, POST urlencoded, POST multipart, chunked POST (+trailer), Expect accepted, Expect rejected (body withheld), " +
+	r.Rule("all histories of 1..3 (thorough: 1..4) requests over 12 (13 with HeaderReceived) request kinds {GET with query+cookies+headers, POST urlencoded, POST multipart, chunked POST (+trailer), Expect accepted, Expect rejected (body withheld), " +
 		"parse error, body over MaxRequestBodySize, hijack, 12 KB body the handler leaves unread, handler SetConnectionClose, HEAD} (variant = position mod 2 so that neighbours differ), " +
 		"each later request either on the same connection or opening the second connection (served after the first returned, same Server, so that the pooled RequestCtx is reused; repeated until reuse is observed), " +
-		"x ReduceMemoryUsage x StreamRequestBody x {ContinueHandler, ExpectHandler}. The handler snapshots method, RequestURI, path, query, host, every header (VisitAll and in order), cookies, body, query/post args, multipart values, " +
+		"x ReduceMemoryUsage x StreamRequestBody x {ContinueHandler, ExpectHandler} x Server.HeaderReceived {unset, set: RequestConfig{MaxRequestBodySize 64 KiB, Read/WriteTimeout} for /granted/ paths and the zero config otherwise; adds a 13th kind, a body over the server limit but within the grant}. The handler snapshots method, RequestURI, path, query, host, every header (VisitAll and in order), cookies, body, query/post args, multipart values, " +
 		"user values (VisitUserValues, VisitUserValuesAll), response status/headers/cookies/body/flags and Hijacked BEFORE mutating all of them (user values incl. an io.Closer, response, URI().SetPath, DisableNormalizing, HijackSetNoResponse, ...). " +
 		"Oracle: every invocation's snapshot equals the snapshot of the same bytes sent alone to a fresh Server (whose request part is checked against net/http.ReadRequest of the bytes: tool error on disagreement); " +
 		"every written response equals the response of the same request alone; a request that is dispatched when alone is, when answered at all, dispatched to the handler (in particular after a rejected expectation). " +
